@@ -292,3 +292,18 @@ pub fn next_change_pointwise(oh: &Oh, t: NaiveDateTime, horizon: NaiveDateTime) 
     }
     None
 }
+
+/// Run `f` under a budget of day-steps (hook H1). Ok(None) = the budget ran out (not a verdict:
+/// an expression that never changes but is not trivially constant legitimately walks day by day
+/// to 9999); Err = a real panic.
+pub fn with_day_budget<T>(steps: u64, f: impl FnOnce() -> T) -> Result<Option<T>, String> {
+    hooks::reset_ticks();
+    hooks::arm_budget(hooks::Site::DayStep, steps);
+    let r = guarded(f);
+    hooks::disarm_budgets();
+    match r {
+        Ok(x) => Ok(Some(x)),
+        Err(p) if p.starts_with("step budget exceeded") => Ok(None),
+        Err(p) => Err(p),
+    }
+}
